@@ -71,6 +71,36 @@ func (e *Engine) callBuiltin(st *State, fr *Frame, b *ssa.Builtin, args []Value,
 			e.store(st, PtrV{Obj: dst.Obj, Path: appendPath(dst.Path, PathElem{I: dst.Off + i})}, tmp[i])
 		}
 		return retExit(st, c.BV(uint64(n), 64))
+	case "SliceData":
+		// unsafe.SliceData(s): pointer to the first element (nil for a nil slice)
+		sl := args[0].(SliceV)
+		if sl.Nil {
+			return retExit(st, PtrV{})
+		}
+		return retExit(st, PtrV{Obj: sl.Obj, Path: appendPath(sl.Path, PathElem{I: sl.Off})})
+	case "String":
+		// unsafe.String(ptr, len): the len bytes starting at ptr (a pointer into a byte array)
+		p, ok := args[0].(PtrV)
+		n, okn := isConstTerm(args[1])
+		if !ok || !okn {
+			panic(unsupported("unsafe.String with symbolic length"))
+		}
+		if n.C == 0 {
+			return retExit(st, StrV{})
+		}
+		if p.IsNil() || len(p.Path) == 0 || p.Path[len(p.Path)-1].S != nil {
+			panic(unsupported("unsafe.String on an unsupported pointer"))
+		}
+		off := p.Path[len(p.Path)-1].I
+		arr, ok := e.getPath(st, e.obj(st, p.Obj), p.Path[:len(p.Path)-1]).(ArrayV)
+		if !ok || off+int(n.C) > len(arr.E) {
+			panic(unsupported("unsafe.String outside a byte array"))
+		}
+		b := make([]*Term, n.C)
+		for i := range b {
+			b[i] = arr.E[off+i].(*Term)
+		}
+		return retExit(st, StrV{B: b})
 	case "delete":
 		e.mapDelete(st, args[0].(MapV), args[1])
 		return retExit(st, nil)
